@@ -56,6 +56,9 @@ pub enum Ev {
     ReadErr { conn: usize },
     Inbound { idx: usize, conn: usize, start: usize, end: usize },
     ConnectStarted { conn: usize },
+    /// The context recorded (through the hook) that its previous connection was lost `elapsed`
+    /// seconds ago, right before connecting again as `conn`.
+    Resumed { conn: usize, elapsed: u64 },
     ConnectReturned { conn: usize, out: ConnectOutcome },
     AuthorizeReturned { conn: usize, round: usize, out: ConnectOutcome },
     RunStarted { conn: usize },
@@ -407,6 +410,7 @@ async fn ctx_script(mut ctx: Context<SimReader, SimWriter>, shared: Rc<Shared>) 
             Cmd::Connect { conn, mark, connect, auths, reader, writer } => {
                 if let Some(ago) = mark {
                     ctx.verif_mark_disconnected(Duration::from_secs(ago));
+                    shared.push(Ev::Resumed { conn, elapsed: ago });
                 }
                 ctx.set_up((reader, writer));
                 shared.phase.set(Phase::Connecting);
